@@ -26,7 +26,8 @@ THEOREMS = {
             "Named.C19_detect_false_negative_close", "Named.C19_detect_false_positive",
             "Named.C19_positional_partial", "Named.C19_one_key_per_field_partial", "Named.C19_positional_counter",
             "Named.C19_positional_counter_text", "Named.C19_split_join", "Named.C19_split_counter",
-            "Named.C19_split_bordered_counter", "Named.C19_genFormat", "Named.C19_pairs", "Named.C19_pairs_exact_partial",
+            "Named.C19_split_bordered_counter", "Named.C19_genFormat", "Named.C19_pairs", "Named.C19_pairs_exact_partial", "Named.C19_statement_partial",
+            "Named.C19_statement_unnamed_partial", "Named.fmtSubst_render",
             "Named.C19_json_members", "Named.C19_json_single_line", "Named.C19_template_newlines",
             "Named.C19_cache_transparent", "Named.C19_lookup_transparent", "Named.C19_logj",
             "Obligations.named_extraction_complete", "Obligations.named_separator_ok", "Obligations.named_json_layout",
@@ -219,6 +220,8 @@ class Run:
         self.samples = []
         self.harness_stats = []
         self.traces = 0
+        self.outside = {"procOK": set(), "detectOK": set()}     # scan templates outside a class (model's CLS lines)
+        self.wrong = {"procOK": set(), "detectOK": set()}       # scan templates on which the reference oracle fired
 
     def note_known(self, cls, sample):
         k = self.known.setdefault(cls, [0, sample])
@@ -270,6 +273,9 @@ class Run:
         for hx, d in cls_driver.items():
             c = classify(hx)
             self.cov["cls_crosschecked"] += 1
+            for cl in ("procOK", "detectOK"):
+                if d.get(cl) == "0":
+                    self.outside[cl].add(hx)
             if c is None or int(c["procOK"]) != int(d["procOK"]) or int(c["detectOK"]) != int(d["detectOK"]):
                 self.mismatches.append((label, "class predicates disagree for template %s: model %r, checker %r" % (hx, d, c),
                                         "scan %s\n" % hx))
@@ -301,6 +307,10 @@ class Run:
             elif ln.startswith("ORACLE "):
                 w = ln.split()
                 d = kv(w[2:])
+                if w[1] in ("positional", "keys"):
+                    self.wrong["procOK"].add(d.get("tmpl", "-"))
+                elif w[1] == "detect":
+                    self.wrong["detectOK"].add(d.get("tmpl", "-"))
                 self.oracle_verdict(w[1], d.get("tmpl", "-"), ln, self.replay_for(lines, i - 1))
             elif ln.startswith("STATS"):
                 self.harness_stats.append(label + ": " + ln)
@@ -395,7 +405,7 @@ def run(prop, tier):
                 ck.violation("abort_scan_seed%d" % sd, "h3_named scan %d %s\n\n%s" % (sd, scan_tier, out[-4000:]),
                              "harness aborted (rc=%d) while driving the real scanners: sanitizer report or crash" % rc)
             R.process("scan seed=%d" % sd, out, dout)
-            trials = 40 if tier == "quick" else 600
+            trials = 120 if tier == "quick" else 600
             rc, out, dout = harness_and_driver(hbin, ["e2e", str(sd), str(trials), scratch])
             if rc not in (0, 3):
                 ck.violation("abort_e2e_seed%d" % sd, "h3_named e2e %d %d\n\n%s" % (sd, trials, out[-4000:]),
@@ -451,6 +461,10 @@ def run(prop, tier):
         "mismatching_lines": len(R.mismatches),
         "oracle_violations": len(R.violations),
         "known_class_hits": {cl: v[0] for cl, v in R.known.items()},
+        "class_tightness": {cl: {"templates_outside_class": len(R.outside[cl]),
+                                 "of_which_scanner_really_wrong": len(R.outside[cl] & R.wrong[cl]),
+                                 "wrong_but_inside_class": len(R.wrong[cl] - R.outside[cl])}
+                            for cl in ("procOK", "detectOK")},
     })
     return ck.finish()
 
